@@ -9,6 +9,7 @@ import Dtaiverif.Model.Path
 import Dtaiverif.Model.Matrix
 import Dtaiverif.Model.Dba
 import Dtaiverif.Model.SubseqIter
+import Dtaiverif.Model.SubseqSearch
 
 open Lean
 
@@ -239,10 +240,27 @@ def opSubseq (j : Json) : Except String Json := do
   return Json.mkObj [("matching", Json.arr (matching.map costJ).toArray),
     ("starts", Json.arr (starts.map fun (x : Nat) => Json.num (x : Nat)).toArray), ("yielded", cellsJ out)]
 
+/-- op "knn": the bounded k-NN scan of SubsequenceSearch on explicit (distance, lower bound) pairs, and a
+sequence of queries on one object -/
+def opKnn (j : Json) : Except String Json := do
+  let ds ← (j.getObjVal? "dists") >>= (·.getArr?)
+  let lbs ← (j.getObjVal? "lbs") >>= (·.getArr?)
+  let cands : List (Nat × Cost × Cost) := (List.range ds.size).map fun i =>
+    (i, costOfJ (ds.getD i Json.null), costOfJ (lbs.getD i Json.null))
+  let useLb := getBoolD j "useLb" true
+  let M : Cost := match getOptNat j "maxDistI" with | some m => .fin m | none => .inf
+  let ks ← getNatArr j "ks"
+  let step := fun (acc : SSObj Cost × List Json) (k : Nat) =>
+    let r := ssQuery useLb M cands acc.1 k
+    (r.1, acc.2 ++ [Json.arr (r.2.map fun x => Json.arr #[costJ x.1, Json.num (x.2 : Nat)]).toArray])
+  let out := ks.toList.foldl step ({ stored := none }, [])
+  return Json.mkObj [("answers", Json.arr out.2.toArray)]
+
 def dispatch (j : Json) : Except String Json := do
   let op ← (j.getObjVal? "op") >>= (·.getStr?)
   let res ← match op with
     | "dtw" => opDtw j
+    | "knn" => opKnn j
     | "subseq" => opSubseq j
     | "dba" => opDba j
     | "bounds" => opBounds j
